@@ -43,6 +43,11 @@ def frame_bytes(j, n, fill):
         return b"\x00" * n
     if fill == 2:
         return b"\xff" * n
+    if fill in (4, 5):
+        # content that begins like the connection prologue the layers below write once per connection (the routing header, the
+        # protocol header): a frame is a frame whatever it holds - ciphertext begins with any two bytes sooner or later
+        head = b"WA\x04\x00" if fill == 4 else b"ED\x00\x01"
+        return (head + bytes(((j * 37 + k * 11 + 1) & 0xFF) for k in range(max(0, n - 4))))[:n]
     # header-like content: looks like length prefixes of small frames
     pat = b"\x00\x00\x01\x00\x00\x02\x00\x00\x03"
     return (pat * (n // len(pat) + 1))[:n]
@@ -483,6 +488,9 @@ def _enum_sends_between_chunks():
 def _enum_outgoing():
     for n in OUT_BOUNDARY:
         yield {"sub": "outgoing", "n": n, "fill": 0}
+    for fill in (4, 5):
+        for n in (1, 2, 3, 4, 5, 40, 300, 70000):
+            yield {"sub": "outgoing", "n": n, "fill": fill}
 
 
 def stream_strategy(tier):
@@ -511,7 +519,7 @@ def stream_strategy(tier):
         cuts = draw(st.lists(cut, min_size=0, max_size=12))
         if draw(st.integers(0, 9)) == 0 and L <= 400:
             cuts = list(range(1, L))  # byte by byte
-        fills = draw(st.lists(st.integers(0, 3), min_size=1, max_size=3))
+        fills = draw(st.lists(st.integers(0, 5), min_size=1, max_size=3))
         return {"sub": "stream", "lens": ls, "fills": fills, "cuts": sorted(set(cuts)), "second_connection": draw(st.integers(0, 3)) == 0,
                 "events_between_chunks": draw(st.one_of(st.just([]), st.lists(st.tuples(st.integers(1, 8), st.integers(0, 2)).map(list), min_size=1, max_size=3))),
                 "upper_raises": draw(st.one_of(st.just([]), st.just([]), st.lists(st.integers(0, 7), min_size=1, max_size=3))),
@@ -552,7 +560,7 @@ def _enum_dispatcher():
 def outgoing_strategy():
     return st.builds(lambda n, f: {"sub": "outgoing", "n": n, "fill": f},
                      st.one_of(st.integers(0, 600), st.integers(60000, 70000), st.integers(0, 1 << 20)),
-                     st.integers(0, 3))
+                     st.integers(0, 5))
 
 
 def plan(tier):
@@ -580,3 +588,4 @@ def plan(tier):
 
 RULE += (" Also: a layer above failing on chosen frames while the stream goes on; streams of 200..4000 tiny frames; the stream read through the library's own asynchronous dispatcher class (socket double; bursts incl. multiples of its read size) and outgoing frames written through it while the socket takes only part of what it is offered.")
 RULE += (" Frames are also sent downward between the chunks of an incoming stream (sends_between_chunks): neither direction may disturb the other.")
+RULE += (" Frame contents include ones that begin like the connection prologue (WA.. / ED..), in both directions.")
